@@ -224,7 +224,7 @@ TRespDelivered ==
      \/ /\ \E j \in 1..(exp[X].i - 1) : exp[X].tb[j].k = E.b /\ (E.c # "" => exp[X].tb[j].c = E.c)
         /\ Same                                                    \* already performed by the receiver's event
   /\ KeepE /\ Adv
-TRespSkipped == Ev("RespSkipped") /\ HasX /\ RespTarget(X).k = E.b /\ cx[RespTarget(X).c] = E.x /\ RespSkip(X) /\ KeepE /\ Adv
+TRespSkipped == Ev("RespSkipped") /\ HasX /\ exp[X].st = "resp" /\ exp[X].i <= Len(exp[X].tb) /\ RespTarget(X).k = E.b /\ cx[RespTarget(X).c] = E.x /\ RespSkip(X) /\ KeepE /\ Adv
 TExportExit == Ev("ExportExit") /\ HasX /\ ExportExit(X) /\ KeepE /\ Adv
 
 \* ---- environment
